@@ -147,8 +147,11 @@ def clause_name(file_, line):
             _tagcache[key] = []
     lines = _tagcache[key]
     i = int(line) - 1
-    if 0 <= i < len(lines):
-        m = CLAUSE_TAG.search(lines[i])
+    # the tag sits at the end of the clause, which may span a few lines
+    for k in range(i, min(i + 6, len(lines))):
+        if k > i and re.match(r'\s*(__CPROVER_|;|#)', lines[k]):
+            break
+        m = CLAUSE_TAG.search(lines[k])
         if m:
             return m.group(1)
     return None
@@ -325,6 +328,10 @@ def _run_job(ws, job, r, extra_defines, want_trace):
             r.canary_dead.append('%s(%s)' % (c, st))
     unknown = [o for o in r.obligations if o['status'] not in ('SUCCESS', 'FAILURE')]
     r.failures = [o for o in r.obligations if o['status'] == 'FAILURE']
+    uw = [o for o in r.failures if o['name'].startswith('unwinding assertion') or o['class'] == 'unwind']
+    if uw:
+        # an unwinding assertion that fails means the bound handed to cbmc is too small: not a violation
+        raise Infra('unwind bound %d too small: %s in %s line %s' % (job.unwind, uw[0]['name'], uw[0].get('function'), uw[0].get('line')))
     if not r.obligations:
         raise Infra('zero obligations generated')
     if job.enforce and not any(o['class'] == 'postcondition' for o in r.obligations):
